@@ -251,7 +251,9 @@ SymOrder == <<"strArg", "listArg", "listDef", "shellStr", "envStr", "fileStr", "
               "exitCode", "numLines", "lineNum", "lineNums", "equalsStr", "matchesRx", "pathExists", "textMatcher",
               "textTransformer", "intMatcher", "lineMatcher",
               "textMatcherAnd", "intMatcherOr", "lineMatcherAnd", "textTransformerSeq",
-              "defStr", "hereDoc", "replaceStr", "runArg", "fileMatcher", "filesMatcher">>
+              "defStr", "hereDoc", "replaceStr", "runArg", "fileMatcher", "filesMatcher", "pathRelDef", "pathRelDef2">>
+\* ("pathRelDef": a PATH defined by the suite relative to a path symbol of the case (-rel SYMBOL), "pathRelDef2":
+\*  through one more definition of the suite)
 \* (the last four: the case's matcher / transformer as an OPERAND of && / || / | in the suite's instruction)
 \* ("listDef": a LIST defined by an instruction of the suite from a string symbol of the case, then used)
 AllSymLog == {"strArg", "listArg", "listDef", "shellStr", "envStr", "fileStr", "progSym", "cleanupArg",
@@ -260,7 +262,8 @@ AllSymLog == {"strArg", "listArg", "listDef", "shellStr", "envStr", "fileStr", "
 \*  refers to it; "replaceStr": it is the replacement of a `replace`; "runArg": an argument of `run`)
 AllSymAssert == {"exitCode", "numLines", "lineNum", "lineNums", "equalsStr", "matchesRx", "pathExists", "textMatcher",
                  "textTransformer", "intMatcher", "lineMatcher",
-                 "textMatcherAnd", "intMatcherOr", "lineMatcherAnd", "textTransformerSeq", "fileMatcher", "filesMatcher"}
+                 "textMatcherAnd", "intMatcherOr", "lineMatcherAnd", "textTransformerSeq", "fileMatcher", "filesMatcher",
+                 "pathRelDef", "pathRelDef2"}
 AllSymKinds == {SymOrder[j] : j \in DOMAIN SymOrder}
 \* "vbad": values of which the INTEGER and the REGEX are ill-formed (the others are values like any other): a case
 \* that gives them to an instruction of the suite that needs an INTEGER / a REGEX ends in VALIDATION_ERROR before
@@ -272,6 +275,8 @@ ASSUME SymKinds \subseteq AllSymKinds /\ SymVals \subseteq {"v1", "v2", "v3", "v
 InvalidFor == {"exitCode", "numLines", "lineNum", "lineNums", "timeoutInt", "matchesRx"}
 OwnFile(v) == CASE v = "v1" -> "own1.txt" [] v = "v2" -> "own2.txt" [] v = "v3" -> "own3.txt" [] v = "vtype" -> "own6.txt"
                 [] OTHER -> "own4.txt"
+\* ... and a directory of its own (the root of the path symbol V_D)
+OwnDir(v) == CASE v = "v1" -> "d1" [] v = "v2" -> "d2" [] v = "v3" -> "d3" [] v = "vtype" -> "d6" [] OTHER -> "d4"
 SymDoc(ks) ==
     LET pick(S) == SelectSeq(SymOrder, LAMBDA k : k \in S \cap ks)
         logs(S) == [j \in DOMAIN pick(S) |-> I("symLog", pick(S)[j], "", NoVal)]
@@ -393,7 +398,8 @@ Step(i, L, c, ph, pp, cached, cval) ==
                                         <<Rec("sds", i, L, c, ph, pp, NoVal, sid, Rem(i.a))>>)
          [] i.op = "sdsAssert" -> IF sid = L.sid THEN proc(L, <<>>) ELSE [L |-> L, out |-> "fail", recs |-> <<>>]
          [] i.op = "defOwn"    -> ok([L EXCEPT !.syms["V"] = i.c,
-                                                !.files = @ \cup {<<"tmp", "own.txt">>, <<"tmp", OwnFile(i.c[1])>>}], <<>>)
+                                                !.files = @ \cup {<<"tmp", "own.txt">>, <<"tmp", OwnFile(i.c[1])>>,
+                                                                   <<"tmp", OwnDir(i.c[1])>>}], <<>>)
          [] i.op = "symLog"    -> proc(IF i.a = "fileStr" THEN [L EXCEPT !.files = @ \cup {<<"tmp", "ks.txt">>}] ELSE L,
                                        <<Rec("sym", i, L, c, ph, pp, val, L.sid, NoVal)>>)
          [] i.op = "symAssert" -> IF val = L.syms["V"] THEN ok(L, <<>>) ELSE [L |-> L, out |-> "fail", recs |-> <<>>]
